@@ -23,6 +23,14 @@ CLAIMED = {
         'analyser, generator, parser and flattening entry gates dominate the code they protect; document roots and import-source models are tested before use. Absence of all undefined behaviour is not claimed.',
    note='Trusted: clang AST/CFG/call graph, C++ exception specifications, libxml2 contracts named in the exemption reasons. Seven unguarded units-reference recursions are listed as known findings (replayed stack exhaustion on units a->b->a); three crash defects were repaired.',
    ref='DESIGN.md section 4, C01'),
+ 'C02': dict(
+   technique='static analysis: writer/reader vocabulary agreement read from both ASTs, taint-style sink rule for XML escaping, field-coverage of the printer, field agreement between getter (printer) and setter (parser) per attribute, positional agreement of unit attributes, pairing rules on connections, lookup-dominates-create rule, per-document state reset',
+   text='(V) the 35 (element, attribute) pairs and 13 elements written by printer.cpp equal those recognised by the CellML 2.0 branches of parser.cpp; (E) each of the 54 values spliced into an attribute is escaped, numeric or a generated id; '
+        '(G) the printer reads every serialisable data member of the six entity classes; (M) for each attribute the members read by the printer and written (or used for lookup) by the parser intersect, and <unit> attributes keep their position between unitAttributes and addUnit; '
+        '(O) connections keep (component_k, variable_k) together on both sides; (L) the parser creates a placeholder variable only where the lookup failed; (H) parser state is re-initialised per document; (N) doubles are written with digits10 precision; '
+        '(R) an empty result is only returned for a null model or by libxml2. Necessary conditions of the round trip; equality of the re-parsed model, libxml2 and whitespace normalisation of math are not decided.',
+   note='Trusted: clang AST/CFG; libxml2 reverses the escaping; the element a loader function reads (LOADER_ELEMENT table in sa/xmlvocab.py). The missing escaping was replayed and repaired (fix commit 125ebbf). H borrows C12.H1 and N borrows C16.P1 (same code, same rule).',
+   ref='DESIGN.md section 4, C02'),
  'C03': dict(
    technique='static analysis: abstract interpretation of the generator\'s parenthesisation if-chains into a (profile, parent, side, child class) decision table checked against C/Python operator precedence; dispatch exhaustiveness and stem agreement; symbolic power-of-scaling-factor evaluation; CFG ordering',
    text='(P) The parenthesisation logic of generateOperatorCode and the unary/piecewise helpers is extracted from the AST of generator.cpp, evaluated under the flags of the C and Python profiles for every parent operator, side and child class (3054 obligations), '
